@@ -72,6 +72,9 @@ func (C12) Generate(r *core.RNG, tier string, idx uint64) interface{} {
 		p.File.PLen = r.Intn(2000)
 		if r.Chance(2, 3) {
 			p.Muts = []ArmorMut{genArmorMut(r)}
+			if r.Chance(1, 3) {
+				p.Muts = append(p.Muts, genArmorMut(r))
+			}
 		}
 	default:
 		p.Mode = "dec"
